@@ -16,7 +16,7 @@
    Only statements, `exact`, and Print Assumptions live here. *)
 From Coq Require Import List NArith ZArith.
 From AnyTLS Require Import Bytes Cmd Generated Frame Reader Session FrameProofs ReaderProofs
-  SessTable SessHandle SessRecv SessPipe SessEnd SessionLegacy.
+  SessTable SessHandle SessRecv SessPipe SessEnd SessionLegacy Text Padding PaddingProofs PipePadded.
 Import ListNotations.
 Import Sess.
 Open Scope N_scope.
@@ -41,6 +41,38 @@ Theorem C01_pipe : forall cR stR b s w gs ops stS wops rest,
 Proof. exact pipe_main. Qed.
 Print Assumptions C01_pipe.
 
+(* C01 composed with C04: for EVERY padding scheme the parser accepts, every grouping `pk` of the submitted
+   frames into packets (write_frame sends pending ++ [frame] as one packet), every packet counter and all draws
+   inside the ranges (pkts_ok), padded (client) or plain (server): the bursts the sender puts on the transport
+   form a wire for which the pipe statement holds, under every fragmentation and every read schedule *)
+Theorem C01_padded : forall pads sc (pk : list (list Z * list frame)) c cR stR b s stS wops,
+  s_closed stS = false ->
+  concat (map snd pk) = sent_frames (run_wops stS wops) ->
+  Forall (fun dfs => frames_ok (snd dfs)) pk ->
+  pkts_ok pads sc c (to_pkts pk) ->
+  Forall (fun dfs => Forall (fun f => not_padding f = true) (snd dfs)) pk ->
+  quiet_for cR b (sent_frames (run_wops stS wops)) ->
+  cfg_ok cR -> wf_sess stR -> s_closed stR = false -> dead stR = false ->
+  lookup b (tbl stR) = Some s -> rd s = rd_init ->
+  exists bursts,
+    run_packets pads sc c (to_pkts pk) = map Writes bursts /\
+    forall ops rest,
+      concat (recv_chunks ops) ++ rest = concat (map (@concat N) bursts) -> caps_pos ops ->
+      let '(stR', _, lg) := run_rops cR stR [] ops in
+      exists s' later, lookup b (tbl stR') = Some s' /\ rd_open (rd s') /\
+        delivered b (length (only b (gone stR))) lg ++ rd_pending_bytes (rd s') ++ later = written b wops /\
+        saw_eof b (length (only b (gone stR))) lg = false /\
+        (rest = [] -> later = []) /\
+        s_closed stR' = false /\ dead stR' = false /\ sclosed s' = sclosed s.
+Proof.
+  intros pads sc pk c cR stR b s stS wops Hs Hpk Hf Hok Hn Hq Hc Hw Hsc Hd Hl Hr.
+  destruct (padded_wire_ok pads sc pk c Hf Hok Hn) as (bursts & gs & E & D & F).
+  exists bursts. split; [exact E|]. intros ops rest Hops Hcaps.
+  apply (pipe_main cR stR b s (concat (map (@concat N) bursts)) gs ops stS wops rest); auto.
+  rewrite F. exact Hpk.
+Qed.
+Print Assumptions C01_padded.
+
 (* while the stream is open the reader has always seen a prefix of what was written, and is never told Eof *)
 Theorem C01_prefix : forall cR stR b s w gs ops stS wops rest,
   s_closed stS = false ->
@@ -53,12 +85,7 @@ Theorem C01_prefix : forall cR stR b s w gs ops stS wops rest,
   let '(_, _, lg) := run_rops cR stR [] ops in
   (exists more, delivered b (length (only b (gone stR))) lg ++ more = written b wops) /\
   saw_eof b (length (only b (gone stR))) lg = false.
-Proof.
-  intros cR stR b s w gs ops stS wops rest H1 H2 H3 H4 H5 H6 H7 H8 H9 H10 H11 H12.
-  pose proof (pipe_main cR stR b s w gs ops stS wops rest H1 H2 H3 H4 H5 H6 H7 H8 H9 H10 H11 H12) as H.
-  destruct (run_rops cR stR [] ops) as [[st' c'] lg].
-  destruct H as (s' & later & _ & _ & E & Heof & _). split; [eexists; exact E | exact Heof].
-Qed.
+Proof. exact pipe_prefix. Qed.
 Print Assumptions C01_prefix.
 
 (* a reader that is answered Pending after the whole wire arrived holds everything that was written *)
@@ -98,7 +125,7 @@ Print Assumptions C01_no_spurious_eof.
 Theorem C01_split : forall sid d,
   concat (split_chunk d) = d /\
   Forall (fun f => fcmd f = Push /\ fsid f = sid /\ lenN (fdata f) <= max_payload) (data_frames sid d).
-Proof. intros sid d. split; [apply concat_split_chunk | apply data_frames_ok]. Qed.
+Proof. exact split_ok. Qed.
 Print Assumptions C01_split.
 
 (* any fragmentation of the transport bytes dispatches the same frames in the same order *)
